@@ -422,6 +422,13 @@ impl<'a> Ui<'a> {
                 }
             }
         }
+        // documented: "Panics if range has a range bound that is larger than the matched item count"
+        if expected_panic(|| s.matched_items(0..len + 1).len()).is_ok() {
+            soft("C06", "accessor", format!("{what}: matched_items(0..{}) did not panic although there are only {len} matches", len + 1));
+        }
+        if s.get_matched_item(u32::MAX).is_some() {
+            soft("C06", "accessor", format!("{what}: get_matched_item(u32::MAX) returned an item"));
+        }
         if s.get_matched_item(len).is_some() {
             soft("C06", "accessor", format!("{what}: get_matched_item({len}) returned an item, there are only {len} matches"));
         }
